@@ -100,6 +100,16 @@ def gen_build_files():
             _write_if_changed(out, new)
             overlay[bfile] = out
     _write_if_changed(os.path.join(GEN, "overlay.json"), json.dumps({"Replace": overlay}, indent=1, sort_keys=True))
+    # race build (C20): additionally make the global logging mutex a no-op (see harness/nosync)
+    race_overlay = dict(overlay)
+    lfile = os.path.join(REPO, "internal", "ui", "logging.go")
+    if os.path.exists(lfile):
+        new = _rewrite_import(open(lfile).read(), "sync", MODULE + "/" + SHIM + "/nosync", "sync")
+        if new is not None:
+            out = os.path.join(rw, "ui_logging.go")
+            _write_if_changed(out, new)
+            race_overlay[lfile] = out
+    _write_if_changed(os.path.join(GEN, "overlay_race.json"), json.dumps({"Replace": race_overlay}, indent=1, sort_keys=True))
     return overlay
 
 
@@ -127,6 +137,7 @@ def build_test(pkg, out_name, race=False, timeout=900):
     if race:
         cmd.insert(2, "-race")
         env["CGO_ENABLED"] = "1"
+        cmd = [c.replace("overlay.json", "overlay_race.json") if c.startswith("-overlay=") else c for c in cmd]
     cmd.append("./" + pkg + "/")
     t0 = time.time()
     r = subprocess.run(cmd, cwd=REPO, env=env, stdout=subprocess.PIPE, stderr=subprocess.STDOUT, text=True, timeout=timeout)
